@@ -66,13 +66,19 @@ func routesOf(p *an.Prog, fn *ssa.Function) []route {
 		}
 		m, ok1 := an.ConstString(args[1])
 		pa, ok2 := an.ConstString(args[2])
+		pathV := args[2]
 		if !ok2 {
 			// path built by a local helper from a constant: bp("/api/topics")
 			if pc, ok := an.Strip(args[2]).(*ssa.Call); ok && len(pc.Call.Args) >= 1 {
-				pa, ok2 = an.ConstString(pc.Call.Args[len(pc.Call.Args)-1])
+				pathV = pc.Call.Args[len(pc.Call.Args)-1]
+				pa, ok2 = an.ConstString(pathV)
 			}
 		}
 		if !ok1 || !ok2 {
+			// registered in a loop over a literal table of {method, path, handler} rows
+			if f.Name() == "Handle" {
+				out = append(out, tableRoutes(p, in, args[1], pathV, args[3])...)
+			}
 			return
 		}
 		r := route{Method: m, Path: pa, Site: in}
@@ -178,7 +184,7 @@ func httpErrOf(v ssa.Value) (code int64, text string, ok bool) {
 			if !isSt || st.Addr != fa {
 				continue
 			}
-			switch an.FieldOf(fa).Name() {
+			switch an.FName(an.FieldOf(fa)) {
 			case "Code":
 				if k, isC := an.ConstInt(st.Val); isC {
 					code = k
@@ -380,4 +386,147 @@ func controllingClasses(b *ssa.BasicBlock) []failClass {
 
 var classStatus = map[string][]int64{
 	"parser": {400}, "size": {413}, "miss": {404}, "exiting": {503}, "io": {500}, "policy": {403}, "upstream": {502},
+}
+
+// tableCell: v is field #k of the element a loop reads from a literal array/slice built in this function; returns the array
+// and k.
+func tableCell(v ssa.Value) (*ssa.Alloc, int) {
+	v = an.Strip(v)
+	var elemAddr ssa.Value
+	k := -1
+	switch x := v.(type) {
+	case *ssa.Field:
+		if ld, ok := an.Strip(x.X).(*ssa.UnOp); ok && ld.Op == token.MUL {
+			elemAddr, k = ld.X, x.Field
+		}
+	case *ssa.UnOp:
+		if fa, ok := x.X.(*ssa.FieldAddr); ok && x.Op == token.MUL {
+			elemAddr, k = fa.X, fa.Field
+		}
+	}
+	// the range variable is a local copy of the element: `*r = *(&table[i])`
+	if loc, isLocal := elemAddr.(*ssa.Alloc); isLocal {
+		var src ssa.Value
+		n := 0
+		for _, r := range an.Referrers(loc) {
+			if st, ok := r.(*ssa.Store); ok && st.Addr == ssa.Value(loc) {
+				n++
+				if ld, ok := st.Val.(*ssa.UnOp); ok && ld.Op == token.MUL {
+					src = ld.X
+				}
+			}
+		}
+		if n == 1 && src != nil {
+			elemAddr = src
+		}
+	}
+	ia, ok := elemAddr.(*ssa.IndexAddr)
+	if !ok {
+		return nil, -1
+	}
+	if _, isConst := ia.Index.(*ssa.Const); isConst {
+		return nil, -1
+	}
+	switch a := ia.X.(type) {
+	case *ssa.Slice:
+		if al, ok := a.X.(*ssa.Alloc); ok {
+			return al, k
+		}
+	case *ssa.Alloc:
+		return a, k
+	}
+	return nil, -1
+}
+
+// tableRows: the values the literal's initialisers store, per row and field.
+func tableRows(al *ssa.Alloc) map[int64]map[int]ssa.Value {
+	rows := map[int64]map[int]ssa.Value{}
+	for _, r := range an.Referrers(al) {
+		ia, ok := r.(*ssa.IndexAddr)
+		if !ok {
+			continue
+		}
+		i, isC := an.ConstInt(ia.Index)
+		if !isC {
+			continue
+		}
+		for _, r2 := range an.Referrers(ia) {
+			fa, ok := r2.(*ssa.FieldAddr)
+			if !ok {
+				continue
+			}
+			for _, r3 := range an.Referrers(fa) {
+				if st, ok := r3.(*ssa.Store); ok && st.Addr == ssa.Value(fa) {
+					if rows[i] == nil {
+						rows[i] = map[int]ssa.Value{}
+					}
+					rows[i][fa.Field] = st.Val
+				}
+			}
+		}
+	}
+	return rows
+}
+
+func tableRoutes(p *an.Prog, site ssa.Instruction, methodV, pathV, handlerArg ssa.Value) []route {
+	alM, km := tableCell(methodV)
+	alP, kp := tableCell(pathV)
+	if alM == nil || alP != alM {
+		return nil
+	}
+	dec, ok := an.Strip(handlerArg).(*ssa.Call)
+	if !ok {
+		return nil
+	}
+	if df := an.StaticCallee(dec); df == nil || df.Name() != "Decorate" || len(dec.Call.Args) == 0 {
+		return nil
+	}
+	alH, kh := tableCell(dec.Call.Args[0])
+	if alH != alM {
+		return nil
+	}
+	var decs []string
+	var decVals []ssa.Value
+	if len(dec.Call.Args) > 1 {
+		if sl, ok := dec.Call.Args[1].(*ssa.Slice); ok {
+			if al, ok := sl.X.(*ssa.Alloc); ok {
+				type ds struct {
+					idx int64
+					val ssa.Value
+				}
+				var all []ds
+				for _, rr := range an.Referrers(al) {
+					if ia, ok := rr.(*ssa.IndexAddr); ok {
+						k, _ := an.ConstInt(ia.Index)
+						for _, r3 := range an.Referrers(ia) {
+							if st, ok := r3.(*ssa.Store); ok && st.Addr == ssa.Value(ia) {
+								all = append(all, ds{k, st.Val})
+							}
+						}
+					}
+				}
+				sort.Slice(all, func(i, j int) bool { return all[i].idx < all[j].idx })
+				for _, d := range all {
+					decs = append(decs, decoratorName(p, d.val))
+					decVals = append(decVals, d.val)
+				}
+			}
+		}
+	}
+	rows := tableRows(alM)
+	var idx []int64
+	for i := range rows {
+		idx = append(idx, i)
+	}
+	sort.Slice(idx, func(i, j int) bool { return idx[i] < idx[j] })
+	var out []route
+	for _, i := range idx {
+		m, ok1 := an.ConstString(rows[i][km])
+		pa, ok2 := an.ConstString(rows[i][kp])
+		if !ok1 || !ok2 {
+			continue
+		}
+		out = append(out, route{Method: m, Path: pa, Handler: funcOfValue(p, rows[i][kh]), Decorators: decs, DecVals: decVals, Site: site})
+	}
+	return out
 }
